@@ -20,7 +20,7 @@ func C09(r *core.Report) {
 		"R4 every read of MultiEpoch.epochs happens under mu (R or W) and every write under mu.Lock, in the function or at every call site of it; " +
 		"R5 the epoch listing is built from map keys (duplicate free) and a strict descending sort dominates its return. " +
 		"R7 single source of truth - every function that removes or replaces an entry of MultiEpoch.epochs also updates every other field of MultiEpoch that can hold an *Epoch (directly or through a same-package callee); adding a key found absent is exempt. " +
-		"R7 also covers state derived from the epoch map: any field some method fills while reading the map. R7 derived state is recognised through callees (a field assigned in a function that reaches a read of the epoch map). Not decided: liveness of I/O performed by queries, use-after-close of an epoch that is being replaced (exempted by the property)."
+		"R7 also covers state derived from the epoch map: any field some method fills while reading the map. R7 derived state is recognised through callees (a field assigned in a function that reaches a read of the epoch map). R8 no function waits for other goroutines (JobGroup runs, FirstSuccess, errgroup / WaitGroup Wait, channel receive) while it holds the epoch-set lock: the per-epoch jobs take the same lock, and a queued writer would stop reader, writer and jobs for good. Not decided: liveness of I/O performed by queries, use-after-close of an epoch that is being replaced (exempted by the property)."
 	r.Assumptions = []string{
 		"call graph: static calls, interface calls resolved by CHA over the repository's named types, function values resolved one level through call-site arguments/assignments",
 		"a function literal passed as an argument is assumed to be run synchronously by the callee unless the callee is go/errgroup.Go/conc pool Go",
@@ -31,6 +31,7 @@ func C09(r *core.Report) {
 	c09ListingOrder(r)
 	c09SnapshotSelfChecked(r)
 	c09SingleSourceOfTruth(r)
+	c09NoJoinUnderEpochLock(r)
 	r.Floor("C09.R7", 2)
 	r.Floor("C09.R1", 4)
 	r.Floor("C09.R2", 25)
